@@ -101,6 +101,22 @@ Theorem C18_invalid_rejected : forall k pid p, kget pid k = Some p -> wf_procb k
 Proof. exact invalid_rejected. Qed.
 Print Assumptions C18_invalid_rejected.
 
+(* proc.c keeps the CPU number a C long up to CPU_SET: a number outside 0..1023 (2^31, 2^32,
+   2^32+k, 2^62, negative ones) sets no bit of the cpu_set_t -- it is not narrowed to an int --
+   so a list of such numbers names no CPU, the kernel answers EINVAL, the caller gets ValueError
+   and nothing changes *)
+Theorem C18_cpu_numbers_not_narrowed : forall l,
+  (forall v, In v l -> fits_long v = true /\ v <> -1 /\ (v < 0 \/ 1024 <= v)) -> c_build_set l = Val [].
+Proof. exact cpu_numbers_not_narrowed. Qed.
+Print Assumptions C18_cpu_numbers_not_narrowed.
+
+Theorem C18_nonexistent_cpus_rejected : forall k pid p cpus,
+  kget pid k = Some p -> wf_procb k p = true -> pid <> 0 ->
+  cpus <> [] -> (forall c, In c cpus -> c < 0 \/ 1024 <= c) ->
+  run_req pid (Affinity (Some cpus)) k = (Exc ValueError, k).
+Proof. exact nonexistent_cpus_rejected. Qed.
+Print Assumptions C18_nonexistent_cpus_rejected.
+
 (* cpu_affinity([]) selects all eligible CPUs: for every eligible set (one range, several
    ranges, single CPUs) and every current mask (also after an earlier narrowing) *)
 Theorem C18_empty_affinity_all_eligible : forall k pid p,
